@@ -699,6 +699,7 @@ fn main() {
     let mut index_base = 0u64;
     let mut wait_ms = 4000u64;
     let mut fault = false;
+    let mut only = 0u64; // re-drive this run number alone (same seed => same script)
     let mut i = 1;
     while i < a.len() {
         match a[i].as_str() {
@@ -709,6 +710,7 @@ fn main() {
             "--index-base" => { index_base = a[i + 1].parse().unwrap(); i += 1 }
             "--wait-ms" => { wait_ms = a[i + 1].parse().unwrap(); i += 1 }
             "--scenario" => { fault = a[i + 1] == "fault"; i += 1 }
+            "--only" => { only = a[i + 1].parse().unwrap(); i += 1 }
             _ => {}
         }
         i += 1;
@@ -733,6 +735,9 @@ fn main() {
                 let r = next.fetch_add(1, Ordering::SeqCst) as u64;
                 if r >= runs {
                     break;
+                }
+                if only != 0 && r + 1 != only {
+                    continue;
                 }
                 let res = catch_unwind(AssertUnwindSafe(|| {
                     if fault {
